@@ -192,6 +192,7 @@ INITIALS = {
     "emptystr": [("s:", "s:"), ("s:k", "s:")],
     "nonutf8": [("s:raw", "b:fffe00"), ("s:k", "s:v")],
     "large": [("s:big", S("L", 100_000)), ("s:k", "s:v")],
+    "binkey": [("b:" + b"sig\xe2(".hex(), "s:bytes key that is not valid UTF-8"), ("s:k", "s:v")],
     "many": [("s:k%d" % i, S("v", i)) for i in range(12)],
 }
 SCRIPTS = {
